@@ -297,12 +297,12 @@ fn check_widths(rep: &Report) {
 }
 
 fn run(rep: &Report) {
-    rep.set_rule("values: every u64 boundary 2^(8k-1), 2^(8k) ±{0,1,2} plus the dense range [0,2^24) (quick) / [0,2^32) (thorough) through every encoder/decoder against the harness codec; heavy places (generator serialiser, length predictor, validated coin id) on boundaries + [0,2^16) (quick) / [0,2^20) (thorough); all atoms of length <= 10 over bytes {00,01,7f,80,ff} through sanitize_uint(4|8) and every FromClvm integer decoder. distinct = distinct values / atoms whose reference class was exercised");
+    rep.set_rule("values: every u64 boundary 2^(8k-1), 2^(8k) ±{0,1,2} plus the dense range [0,2^27) (quick) / [0,2^32) (thorough) through every encoder/decoder against the harness codec; heavy places (generator serialiser, length predictor, validated coin id) on boundaries + [0,2^16) (quick) / [0,2^20) (thorough); all atoms of length <= 10 over bytes {00,01,7f,80,ff} through sanitize_uint(4|8) and every FromClvm integer decoder. distinct = distinct values / atoms whose reference class was exercised");
     rep.assume("reference codec in mc::sx (enc_u64/enc_i128) is the definition of the minimal two's-complement form");
     rep.assume("SHA-256 from the sha2 crate");
 
     let bvals = boundary_values();
-    let dense: u64 = rep.tier.pick(1 << 24, 1u64 << 32);
+    let dense: u64 = rep.tier.pick(1 << 27, 1u64 << 32);
     let heavy_dense: u64 = rep.tier.pick(1 << 16, 1 << 20);
 
     // cheap encoders on boundaries + dense range
@@ -413,7 +413,7 @@ fn run(rep: &Report) {
     rep.sample(json!({"atom": "0001", "class": "Redundant -> must be an error"}));
     rep.extra("atoms_max_len", json!(maxlen));
     if rep.tier == Tier::Quick {
-        rep.extra("note", json!("quick tier: dense range [0,2^24); thorough covers [0,2^32)"));
+        rep.extra("note", json!("quick tier: dense range [0,2^27); thorough covers [0,2^32)"));
     }
 }
 
